@@ -5,7 +5,7 @@ cd /verif
 fail=0
 if ! git -C /repo diff --quiet; then echo "repo dirty"; exit 3; fi
 for d in seeded/*/; do
-  name=$(basename $d); prop=$(python3 -c "import json;print(json.load(open('$d/meta.json'))['property'])")
+  name=$(basename $d); prop=${name%%-*}
   git -C /repo apply /verif/$d/patch.diff || { echo "$name: patch does not apply"; fail=1; continue; }
   out=$(/venv/bin/python check.py --property $prop --tier quick --no-evidence 2>&1); rc=$?
   git -C /repo checkout -- .
